@@ -181,8 +181,18 @@ def rule_repeat_restart(prog):
         fl = receiver_fields(f, t)
         if not (fl and fl[-1] == "active_sequences"):
             continue
-        flds, _, _ = backward_slice(f, t["args"][1])
-        if not any(x[1] == "sequence" and "State" in x[0] for x in flds):
+        flds, cals, _ = backward_slice(f, t["args"][1])
+        from_state = any(x[1] == "sequence" and "State" in x[0] for x in flds)
+        if not from_state and any(c.split("::")[-1] in ("find_map", "map", "and_then", "filter_map") for c in cals):
+            # `states.iter().rev().find_map(|s| match s { RepeatingSequence { sequence, .. } => Some(sequence), .. })`: the field
+            # is read inside the closure
+            from kq.core import proj_fields
+            for c in prog.closures_of(f):
+                for _b, _si, st in c.all_rvalues():
+                    for o in [st["rv"].get("a"), st["rv"].get("p")] + list(st["rv"].get("ops", [])):
+                        if isinstance(o, dict) and any(x[2] == "sequence" and (x[0] or "").endswith("layout::State") for x in proj_fields(o)):
+                            from_state = True
+        if not from_state:
             continue   # the "put it back" push of the cursor that is being processed
         n += 1
         ok = False
